@@ -110,6 +110,24 @@ VALUE_MODULES = ['PP.Model.PyStr', 'PP.Model.Combinators', 'PP.Model.StrDoc', 'P
 VALUE_TRUSTED = ['the value printers are modelled by hand (PP/Model/Values.lean, Combinators.lean, StrDoc.lean); the value-level claims below rest on '
                  'C04.sound (engine) + the correspondence + the CPython-side oracle evaluated on every implementation output of this run']
 
+def simple_sec(module, fn_name):
+    def run(tier, seed, rep):
+        import importlib
+        import findings
+        mod = importlib.import_module(module)
+        stats, mism, fails = getattr(mod, fn_name)(tier, seed)
+        known = common.load_findings()
+        real, n_known = [], 0
+        for f in fails:
+            if findings.match_known(rep.prop, f, known) is None:
+                real.append(f)
+            else:
+                n_known += 1
+        stats['oracle_failures_in_known_class'] = n_known
+        return stats, mism, real[:3]
+    return run
+
+
 ENGINE_MODULES = ['PP.Model.Doc', 'PP.Model.Normalize', 'PP.Model.Layout', 'PP.Model.Render', 'PP.Spec.Lay',
                   'PP.Proofs.LayNormalize', 'PP.Proofs.Sound']
 
@@ -220,5 +238,29 @@ REGISTRY = {
         'sections': [{'name': 'calls', 'run': values_sec('calls_section')}],
         'trusted': VALUE_TRUSTED,
         'rule': 'objects printed through pretty_call_alt: args/kwargs order, nesting, comments; dataclasses/attrs field selection',
+    },
+    'C15': {
+        'theorems': ['PP.C15.refines', 'PP.C15.no_effect', 'PP.C15.inv_run', 'PP.C15.dispatch_after_isRegistered'],
+        'modules': ['PP.Model.Registry', 'PP.Props.C15'],
+        'sections': [{'name': 'registry-histories', 'run': simple_sec('sec_registry', 'registry_section')}],
+        'rule': 'all operation sequences up to a length bound + random long ones on a diamond / multiple-inheritance lattice',
+        'assumptions': ['functools.singledispatch on plain (non-ABC) classes = first class of type.__mro__ present in the registry; type.__mro__ is an input'],
+    },
+    'C19': {
+        'theorems': ['PP.C15.history_independent', 'PP.C15.refines', 'PP.C19.pure_function'],
+        'modules': ['PP.Model.Registry', 'PP.Props.C15', 'PP.Props.C19'],
+        'sections': [{'name': 'purity', 'run': simple_sec('sec_purity', 'purity_section')},
+                     {'name': 'registry-histories', 'run': simple_sec('sec_registry', 'registry_section')}],
+        'rule': 'permutations / repetitions vs fresh-interpreter outputs; deep snapshots before and after',
+        'assumptions': ['partial: immutability of the inputs is not expressible over immutable model values; it is checked by snapshots only. '
+                        'Not covered: mutation through user __eq__/__hash__/__missing__ side effects, generators'],
+    },
+    'C20': {
+        'theorems': ['PP.C20.linearizable', 'PP.C20.step_inv'],
+        'modules': ['PP.Model.Registry', 'PP.Model.Threads', 'PP.Props.C20'],
+        'sections': [{'name': 'schedules', 'run': simple_sec('sec_threads', 'threads_section')}],
+        'rule': 'all schedules up to a pre-emption bound, switch points at every access to the shared registry state',
+        'assumptions': ['partial: the atomicity granularity is one access to the deferred dict / singledispatch object (dict.get, dict.pop, register, dispatch are atomic under the GIL); '
+                        'pre-emption inside such an operation, free-threaded builds and cpprint\'s global colour palette are not covered'],
     },
 }
